@@ -795,6 +795,8 @@ func run(c *core.Ctx) {
 		runRelational(c)
 	case c.Case%8 == 3:
 		runStatic(c)
+	case c.Case%8 == 5:
+		runGrow(c)
 	default:
 		runGenerated(c)
 	}
